@@ -23,6 +23,7 @@ class ExtTranslator(Translator):
         self.none_hints = none_hints or {}
         self.type_names = type_names or {}
         self.cur_func = None
+        self.ret_hints = {}
 
     # ---- types
     def infer_arg_type(self, fname, arg, fdef):
@@ -197,6 +198,8 @@ class ExtTranslator(Translator):
             return self.if_stmt(stmts[0], stmts[1:], env, ret_ty_box, tail)
         if stmts and isinstance(stmts[0], ast.Return) and stmts[0].value is not None:
             # coerce returns into an optional return type when needed
+            if ret_ty_box.get("ty") is None and self.cur_func in self.ret_hints and "_probe" not in ret_ty_box:
+                ret_ty_box["ty"] = self.ret_hints[self.cur_func]
             want = ret_ty_box.get("ty")
             if want is not None and is_opt(want):
                 e = self.coerce_to(self.expr(stmts[0].value, env), want)
